@@ -324,6 +324,13 @@ def run_ops(prop, ops):
 
 
 def shrink(prop, op, what):
+    try:
+        return _shrink(prop, op, what)
+    except Exception:      # a shrinker that cannot handle this operation must not cost the report
+        return op
+
+
+def _shrink(prop, op, what):
     if not hasattr(prop, "shrink_candidates"):
         return op
     cur = op
